@@ -153,6 +153,8 @@ impl<'r> B<'r> {
             h.push(name);
         }
         let hb = h[b].clone();
+        // the chain may hang below a class of the LIBRARY jar (its super types come from the second provider)
+        let lib_root: Option<String> = match self.uni.as_ref().and_then(|u| u.lib.clone()) { Some((l0, l1, _)) if !self.is_itf(&h[0]) && self.r.chance(if ns == "none" { 3 } else { 1 }, 5) => { let root = h[0].clone(); self.class_mut(&root).super_name = l1; Some(l0) }, _ => None };
         // an interface that declares the overridden method (name source "interface")
         let mut isrc: Option<String> = None;
         if ns == "interface" {
@@ -246,7 +248,12 @@ impl<'r> B<'r> {
             "super2_mapped_mid" | "super2_unmapped_mid" => { let c = h[0].clone(); self.map_method(&c, &fam, &b_int_desc, Some(nm.clone())); }
             "interface" => { let c = isrc.clone().expect("isrc"); self.map_method(&c, &fam, &b_int_desc, Some(nm.clone())); }
             "direct_and_super" => { self.map_method(&hb, &b_int, &b_int_desc, Some(nm.clone())); let c = h[b - 1].clone(); self.map_method(&c, &fam, &b_int_desc, Some(format!("{nm}Super"))); }
-            _ => { believed = b_int.clone(); }
+            _ => {
+                match &lib_root {
+                    Some(l0) if self.r.chance(3, 4) => { let l0 = l0.clone(); self.map_method(&l0, &b_int, &b_int_desc, Some(nm.clone())); }
+                    _ => { believed = b_int.clone(); }
+                }
+            }
         }
         if tgt != "class_lacks" && self.r.chance(1, 25) { if let Some(c) = self.map_class(&hb) { c.names[1] = None; } }
         let children = |m: &mut MMethod, r: &mut Rng| {
